@@ -261,6 +261,28 @@ def check_case(case):
                                   f"again does not show the current data", case, {"how": how, "op": op, "name": nm})
                     break
             res.hits["component read, in-place write, component read"] += 1
+    if case["backend"] != "numpy":
+        # the SAME Dask array labelled in both bases, every conversion of both evaluated in ONE graph: each result must equal
+        # the one computed on its own
+        import dask
+        other_b = "circular" if case["basis"] == "linear" else "linear"
+        zo = type(z).like(z, pol_type="".join(list(other_b)))
+        lazies, names = [], []
+        for who, obj in ((case["basis"], z), (other_b, zo)):
+            for nm, fn in (("to_stokes", lambda q_: q_.to_stokes()), ("to_linear", lambda q_: q_.to_linear()),
+                           ("to_circular", lambda q_: q_.to_circular()), ("to_intensity", lambda q_: q_.to_intensity())):
+                lazies.append(fn(obj).data)
+                names.append(f"{nm} of the {who}-labelled signal")
+        alone = [np.asarray(a_.compute(scheduler="synchronous")) for a_ in lazies]
+        joint = dask.compute(*lazies, scheduler="synchronous")
+        res.transitions += 2 * len(lazies)
+        for nm, a_, j_ in zip(names, alone, joint):
+            if a_.shape != np.asarray(j_).shape or not np.array_equal(a_, np.asarray(j_), equal_nan=True):
+                res.violation("dask|results of both bases in one graph interfere", f"{nm}: computed together with the others it differs "
+                              f"from the value computed on its own", case, {"which": nm})
+                break
+        else:
+            res.hits["both bases in one Dask graph"] += 1
     if case["backend"] == "numpy":
         history.reuse_buffer(res, case, z, [("to_circular", lambda q_: q_.to_circular()), ("to_linear", lambda q_: q_.to_linear()),
                                             ("to_stokes", lambda q_: q_.to_stokes()), ("to_intensity", lambda q_: q_.to_intensity())],
@@ -310,7 +332,7 @@ def check_case(case):
 def main(argv=None):
     return report.run_check(
         PID, gen_cases=gen_cases, check_case=check_case, describe=describe,
-        required_hits=["buffer overwritten between calls", "refused pol_type assignment", "identity when already in basis", "Stokes from the other basis", "component by name", "component read, in-place write, component read", "very small / very large magnitudes",
+        required_hits=["buffer overwritten between calls", "refused pol_type assignment", "both bases in one Dask graph", "identity when already in basis", "Stokes from the other basis", "component by name", "component read, in-place write, component read", "very small / very large magnitudes",
                        "trailing dimension", "non-center alignment", "dask backend"],
         assumptions=["inputs are dyadic rationals so the formulas are exact up to the final 1/sqrt2; budget 8 eps(dtype) max|.| "
                      "(16 eps max^2 for quadratic quantities)"],
